@@ -261,6 +261,21 @@ Qed.
 Lemma plan_types_are : types_of (map fst stream_plan) = plan_types.
 Proof. reflexivity. Qed.
 
+(* the state after the header has been written: header object, directory object, 248 bytes *)
+Definition head_state (c : content) : wst :=
+  {| w_buf := update (repeat 0%N HEADER_SZ ++ repeat 0%N (DIRENT_SZ * NUM_DIRS)) 0 (enc_header (ic_time c) 32%N);
+     w_objs := [{| o_kind := KDirectory; o_rva := HEADER_SZ; o_len := DIRENT_SZ * NUM_DIRS |}; {| o_kind := KHeader; o_rva := 0; o_len := HEADER_SZ |}];
+     w_refs := [] |}.
+Lemma image_head_eq c : image_head c empty_wst = Ok (HEADER_SZ, head_state c).
+Proof. reflexivity. Qed.
+Lemma head_state_len c : blen (head_state c) = 248.
+Proof. unfold blen, head_state. cbn [w_buf]. rewrite update_length; rewrite ?enc_header_len, ?app_length, ?repeat_length; [reflexivity|unfold HEADER_SZ; cbn; lia]. Qed.
+Lemma head_state_inv c : Inv (head_state c).
+Proof.
+  pose proof (head_state_len c) as HL. unfold blen in HL.
+  constructor; [|constructor]. cbn [tiled]. rewrite HL. cbn. repeat split.
+Qed.
+
 Theorem image_sound c :
   exists r s', image c empty_wst = Ok (r, s') /\ Inv s' /\
     Forall2 (fun d ty => stream_ok ty (w_objs s') d) (fst r) plan_types /\
@@ -268,24 +283,15 @@ Theorem image_sound c :
     In {| o_kind := KDirectory; o_rva := HEADER_SZ; o_len := DIRENT_SZ * NUM_DIRS |} (w_objs s') /\
     Forall snap_ok (snd r).
 Proof.
-  assert (HI0 : Inv empty_wst) by (constructor; cbn; [reflexivity|constructor]).
-  unfold image.
-  destruct (goodq_alloc 0 KHeader (repeat 0%N HEADER_SZ) empty_wst HI0 ltac:(lia)) as (hd & s1 & E1 & HI1 & Hg1 & (Hhd & Ho1 & Hl1)).
-  unfold bind at 1. rewrite E1. rewrite repeat_length in *. change (blen empty_wst) with 0 in *. cbn [plus] in Hl1.
-  destruct (goodq_alloc 0 KDirectory (repeat 0%N (DIRENT_SZ * NUM_DIRS)) s1 HI1 ltac:(lia)) as (dir & s2 & E2 & HI2 & Hg2 & (Hdir & Ho2 & Hl2)).
-  unfold bind at 1. rewrite E2. rewrite repeat_length in *. rewrite Hl1 in *.
-  assert (Hhd0 : N.to_nat (l_rva hd) = 0) by (rewrite Hhd; reflexivity).
-  assert (Hdir0 : N.to_nat (l_rva dir) = HEADER_SZ) by (rewrite Hdir; reflexivity).
-  destruct (goodq_patch (blen s2) (N.to_nat (l_rva hd)) (enc_header (ic_time c) (l_rva dir))
-              ltac:(rewrite enc_header_len, Hhd0, Hl2; unfold HEADER_SZ; lia) s2 HI2 (le_n _)) as (u & s3 & E3 & HI3 & Hg3 & (Hl3 & Ho3)).
-  unfold bind at 1. rewrite E3. unfold bind at 1. cbn [w_get].
-  destruct (run_plan_ok c (N.to_nat (l_rva dir)) (map fst stream_plan) 0 ([], CNone) [] [(s3, [])] [] (blen s3)
-              ltac:(rewrite Hdir0, Hl3, Hl2, plan_types_are; vm_compute; lia) s3 HI3 (le_n _)) as (res & s4 & E4 & HI4 & Hg4 & Hq).
+  unfold image. unfold bind at 1. rewrite image_head_eq. unfold bind at 1. cbn [w_get].
+  pose proof (head_state_inv c) as HI3. pose proof (head_state_len c) as Hl3.
+  destruct (run_plan_ok c HEADER_SZ (map fst stream_plan) 0 ([], CNone) [] [(head_state c, [])] [] (blen (head_state c))
+              ltac:(rewrite Hl3, plan_types_are; vm_compute; lia) (head_state c) HI3 (le_n _)) as (res & s4 & E4 & HI4 & Hg4 & Hq).
   exists res, s4. split; [exact E4|]. split; [exact HI4|].
   rewrite plan_types_are in Hq. destruct Hq as (Hq1 & Hq2); [constructor|constructor; [split; [exact HI3|constructor]|constructor]|].
   split; [exact Hq1|]. split; [|split; [|exact Hq2]].
-  - eapply grows_in; [exact Hg4|]. rewrite Ho3, Ho2. right. rewrite Ho1. now left.
-  - eapply grows_in; [exact Hg4|]. rewrite Ho3, Ho2. now left.
+  - eapply grows_in; [exact Hg4|]. right. now left.
+  - eapply grows_in; [exact Hg4|]. now left.
 Qed.
 Print Assumptions image_sound.
 
